@@ -587,6 +587,12 @@ impl<'de> From<LazyValue<'de>> for OwnedLazyValue {
         if lv.inner.no_escaped() && raw.as_bytes()[0] == b'"' {
             return Self(LazyPacked::NonEscStrRaw(raw));
         }
+        match raw.as_bytes() {
+            b"true" => return true.into(),
+            b"false" => return false.into(),
+            b"null" => return ().into(),
+            _ => {}
+        }
 
         Self(LazyPacked::Raw(LazyRaw {
             raw,
